@@ -22,49 +22,60 @@ P = {
         "n_quick": 1200, "n_thorough": 30000, "shard": 100,
         "findings": {},
     }],
-    "rule": "a case = a rule set of 1-4 rules (scheme in {'',http,https,ftp}; method lists with ALL / !M / !!M / duplicates / unknown / empty string; 0-3 hosts "
-            "of type exact/glob/regex incl. non-compiling and unknown types; 1-2 routes per rule, 60% mutated from earlier expressions of the case "
-            "(literals, :name, :*, *name, **, escapes, shared prefixes, same shape with other names); path_params of each type on single "
-            "and free wildcards; allow_encoded_slashes off/on/no_decode) created by the real ruleFactory.CreateRule and loaded into the real "
-            "repository, plus 3-8 requests (6% of the cases: one rule probed with every method) (request line / X-Forwarded-* / Envoy CheckRequest; instantiations of the expressions and near "
-            "misses; segments re-encoded with %XX in either hex case, %2F, %2f, invalid escapes (Envoy), the place-holder text). Corpus first: "
-            "the witness of every finding and the documentation's examples. Observed per request: every matcher call (route, keys, values, "
-            "answer) through a pass-through recorder between the real tree and the real route matcher, the selected rule, URL.Captures after the "
-            "real Execute, the encoded-slash rejection. Non-trivial = a request with >= 2 matcher calls, or a call answered no/panic, or a "
-            "matched rule with non-empty captures (rejected rule sets: more than one rule); distinct by hash of the input.",
+    "rule": "a case = 1-4 rules (scheme in {'',http,https,ftp}; method lists with ALL / !M / !!M / duplicates / unknown / empty string, "
+            "exclusion-only lists ~1%; 0-3 hosts of type exact/glob/regex incl. globs whose answer depends on the '.' separator, non-compiling and "
+            "unknown types; 1-2 routes per rule, 60% mutated from earlier expressions of the case: literals, :name, :*, *name, **, escapes, shared "
+            "prefixes, same shape with other names, names differing only by case, 8% with 4-5 tokens; path_params of each type on single and free "
+            "wildcards; allow_encoded_slashes ''/off/on/no_decode). 50% of the rule sets the validator accepts go as a JSON document through the real "
+            "config.ParseRules (decoder + validator) and Rule.DeepCopy, the others as config structs; all through the real ruleFactory.CreateRule and "
+            "the real repository; 40% of the multi-rule cases as TWO AddRuleSet calls from two sources (clone of a non-empty tree, one-source-per-node "
+            "constraint, second set possibly refused). Then 3-8 requests (6% of the cases: one rule probed with every method) through the real "
+            "request contexts (request line / X-Forwarded-* / Envoy CheckRequest, no caching by the driver): instantiations of the expressions and "
+            "near misses; segments re-encoded with %XX in either hex case, %2F, %2f, '+', %2B, ';', raw and encoded UTF-8, invalid escapes (Envoy), "
+            "the former place-holder text. Corpus first: the witness of every (repaired) finding and the documentation's examples. Observed per "
+            "request: every matcher call (route, keys, values, answer) through a pass-through recorder between the real tree and the real route "
+            "matcher, the selected rule, the captures AS THE PIPELINE SEES THEM (snapshot by the stub authenticator inside the real Execute), the "
+            "encoded-slash rejection; engine answers from gobwas/glob and regexp called directly. Non-trivial = a request with >= 2 matcher calls, "
+            "or a call answered no/panic, or a matched rule with non-empty captures (rejected rule sets: more than one rule); distinct by hash of the input.",
     "anchors": ["internal/rules/route_matcher.go", "internal/rules/typed_matcher.go", "internal/rules/rule_impl.go",
                 "internal/rules/rule_factory_impl.go", "internal/x/radixtree/tree.go", "internal/rules/config/matcher.go",
                 "internal/rules/repository_impl.go", "docs/content/docs/rules/regular_rule.adoc"],
-    "trusted": ["glob (gobwas/glob) and regexp engines are oracles: compile ok? and the answer on each (pattern, value) pair of the case are "
-                "recorded from the real libraries; `exact` is modelled",
-                "net/url.PathUnescape is modelled (pct_decode) and compared through the captures of every run; request parsing "
-                "(http.ReadRequest, requestcontext, Envoy CheckRequest -> URL view) is observed, not modelled: the view (method, scheme, host, "
-                "Path, RawPath) is case data",
-                "radix tree: Add / findNode / Find are transcribed (no Delete, no priority sorting: static index bytes are unique); which route "
-                "is consulted first is C02's subject, C03 compares keys, values, answers and captures of the calls made",
+    "trusted": ["glob (gobwas/glob, separators '.' for hosts and '/' for path parameters as documented) and Go regexp are oracles: compile ok? and the "
+                "answer on each (pattern, value) pair the specification needs are recorded by calling the libraries directly (not heimdall's typed "
+                "matchers); a pair missing from the table fails the case; `exact` is modelled",
+                "net/url.PathUnescape is modelled (pct_decode) and compared through the captures of every run; request parsing (http.ReadRequest, "
+                "requestcontext, Envoy CheckRequest -> URL view) is observed, not modelled: the view (method, scheme, host, Path, RawPath) is case data",
+                "radix tree: Add / findNode / Find are transcribed (no Delete / Update, no priority sorting: static index bytes are unique); two "
+                "AddRuleSet calls (Clone, source constraint) are modelled executably but the theorems are about one AddRuleSet",
+                "the rule-set decoder, validator and DeepCopy are exercised (half of the valid rule sets) but not modelled: the model starts from the rule definition",
                 "Go map iteration order is irrelevant: captures are compared as sorted association lists"],
     "level_text": "Proof (kernel-checked, no axioms). (1) Conditions: for all method lists, host lists, path_params lists, engines, requests, "
                   "keys and values, the matcher CreateRule assembles for a route answers exactly scheme && method(ALL / !M) && any-host && all "
                   "path_params on the decoded value of the named wildcard, and never panics (C03_route_matches_iff, C03_method_list_semantics, "
                   "C03_hosts_any). (2) Decoding: the capture decoding equals the specified percent-decoding per encoded-slash setting for all three "
-                  "variants of the decoder, rejection under `off` exactly on encoded slashes, unnamed wildcards not exposed "
-                  "(C03_decode_per_setting, C03_captures_exact, C03_unnamed_not_exposed). (3) Lookup tree, for ALL rule sets loaded by Add (any "
-                  "number of rules/routes, any insertion order, prefix splitting and escapes included) and all requests: every matcher call is made "
-                  "with the wildcard names the route declares and the segments its wildcards match, free wildcard included "
-                  "(C03_matcher_sees_route_keys: insertion invariant over addNode/splitCommonPrefix, soundness of findNode, and a proof that the "
-                  "byte-level position of an expression agrees with the documentation's segment-level matching); hence end to end every call answers "
-                  "as documented (C03_lookup_answers_as_documented, _now without any guard), the lookup never panics (C03_lookup_no_panic) and the "
-                  "entry returned carries exactly the named segments (C03_lookup_entry). All eight findings C03-F1..F8 were repaired by fix: commits; "
-                  "the model is parametric in each repair, the main theorems hold for every variant with guards that are false by definition for "
-                  "the repaired one, and each pinned behaviour is kept as a _pinned_refuted witness. The model is tied to the code by running both on "
-                  "~1200 (quick) / 30000 (thorough) generated rule sets x 3-8 requests per run and comparing every matcher call's keys, values and "
-                  "answer, the selected rule, the captures and the rejection.",
+                  "variants of the decoder, rejection under `off` exactly on encoded slashes (C03_decode_per_setting, C03_captures_exact). "
+                  "(3) Lookup tree, for ALL rule sets loaded by one AddRuleSet (any number of rules/routes, any insertion order, prefix splitting and "
+                  "escapes included) and all requests: every matcher call is made for a route whose expression matches the request path as documented, "
+                  "with the wildcard names that route declares and the segments its wildcards match, free wildcard included "
+                  "(C03_matcher_sees_route_keys: insertion invariant over addNode/splitCommonPrefix, soundness of findNode, and both directions between "
+                  "the byte-level position of an expression and the documentation's segment-level matching, the converse for the valid expressions Add "
+                  "accepts); hence every call answers as documented (C03_lookup_answers_as_documented, _now without any guard), the lookup never panics "
+                  "(C03_lookup_no_panic), and END TO END (C03_selected_only_if_documented, C03_lookup_selected, C03_unnamed_not_exposed): a rule is "
+                  "selected only through a route that was asked, said yes and whose documented conditions hold; the request is refused exactly for an "
+                  "encoded slash under off; otherwise the values exposed are exactly the decoded named segments, unnamed wildcards not exposed. All eight "
+                  "findings C03-F1..F8 were repaired by fix: commits; the model is parametric in each repair, the main theorems hold for every variant "
+                  "with guards that are false by definition for the repaired one, and each pinned behaviour is kept as a _pinned_refuted witness. The "
+                  "model is tied to the code by running both on ~1200 (quick) / 30000 (thorough) generated rule sets x 3-8 requests per run; the verdict "
+                  "is the specification's predicate on the implementation's observation (answers of all matcher calls, selected rule, captures as the "
+                  "pipeline sees them, rejection) plus correspondence of the model on accepted/rejected, selected rule, captures, rejection and the "
+                  "(route, answer) projection of the call trace.",
     "level_note": "Trusted: Coq kernel/vm_compute; the driver (generator, recorder between tree and route, Gallina rendering); glob/regex "
                   "engines as recorded oracles; the request view (method, scheme, host, Path, RawPath) as case data. Values that are not validly "
                   "percent-encoded carry no requirement (hypothesis valid_enc; such paths are rejected by net/http and yield an empty Path under "
-                  "Envoy). Which route is consulted first / backtracking is C02's subject: the C03 theorems speak about the calls that are made and "
-                  "are conditional on the consulted route's expression matching the path per the documentation (spec => tree direction proved; the "
-                  "converse is C02). Tree Delete and priority sorting are not modelled (lookups on trees built by Add). Decoder spec reading: a kept "
+                  "Envoy). Which of several matching routes is consulted first / backtracking is C02's subject: the C03 theorems speak about the calls "
+                  "that are made and the rule that is selected (both directions between stored position and documented expression are proved), not "
+                  "about completeness of the search. Correspondence compares accepted/rejected, selected rule, captures, rejection and the (route, answer) "
+                  "projection of the call trace; keys/values are not compared (they are the subject of the theorems). Tree Delete and priority sorting are not modelled (lookups on trees built by Add). Decoder spec reading: a kept "
                   "encoded slash is written in the canonical spelling %2F (RFC 3986 2.1), which is what the repair of F7 does.",
     "assumptions": ["the driver is in-package (internal/rules) and wraps rule.Route values; a rename of ruleImpl/routeImpl fields or of the "
                     "Route interface breaks the driver, not the property",
